@@ -24,7 +24,7 @@ KNOWN = VERIF / "known_findings.json"
 
 def analyser_digest() -> str:
     h = hashlib.sha256()
-    for name in ("model.py", "values.py", "interp.py", "libmodel.py", "ats.py"):  # what the ATS depends on
+    for name in ("model.py", "roles.py", "values.py", "interp.py", "libmodel.py", "ats.py"):  # what the ATS depends on
         p = Path(__file__).resolve().parent / name
         h.update(p.name.encode())
         h.update(p.read_bytes())
@@ -261,7 +261,7 @@ def run_check(pid: str, fn: Any, tier: str, level: str = "other") -> int:
             "discharged": sum(1 for i in ev.instances if i.verdict == "ok"),
             "rules": {r: {"what": d, **per_rule.get(r, {"instances": 0})} for r, d in ev.rules_desc.items()},
             "known_findings_matched": [known[i].get("id") for i in sorted(matched)],
-            "tree_digest": ctx.prog.digest, "spacepackets": ctx.prog.spacepackets_version,
+            "tree_digest": ctx.prog.digest, "spacepackets": ctx.prog.spacepackets_version, "private_names_recognised_by_role": ctx.prog.role_notes,
             **ev.extra,
         },
         "assumptions": ev.assumptions,
